@@ -35,6 +35,42 @@ pub fn run(prop: &str, req: &str, rep: &str, outfile: &str) {
         "C14" => oracle_c14(&reqs, &reps, &mut fails, &mut checked, &mut nontrivial),
         "C07" => oracle_c07(&reqs, &reps, &mut fails, &mut checked, &mut nontrivial),
         "C11" => oracle_c11(&reqs, &reps, &mut fails, &mut checked, &mut nontrivial),
+        "C15" => {
+            for (i, (q, r)) in reqs.iter().zip(reps.iter()).enumerate() {
+                if !q.starts_with("@fault_sweep") {
+                    continue;
+                }
+                checked += 1;
+                if r == "panic" {
+                    fail(&mut fails, i, q, r, "the sweep itself panicked".into());
+                    continue;
+                }
+                let field = |k: &str| -> (u64, String) {
+                    let part = r.split(' ').find(|p| p.starts_with(k)).unwrap_or("");
+                    let body = part.trim_start_matches(k);
+                    let (n, list) = body.split_once('[').unwrap_or((body, ""));
+                    (n.parse().unwrap_or(0), list.trim_end_matches(']').to_string())
+                };
+                let points = field("points=").0;
+                nontrivial.insert(q.clone());
+                checked += points;
+                if !r.ends_with("clean_ok=1") {
+                    fail(&mut fails, i, q, r, "the fault-free run of the script does not succeed and reopen".into());
+                }
+                let (n, l) = field("swallowed=");
+                if n > 0 {
+                    fail(&mut fails, i, q, r, format!("{n} fault points where a call returned Ok although a medium call issued during it had failed (first: {l})"));
+                }
+                let (n, l) = field("corrupt=");
+                if n > 0 {
+                    fail(&mut fails, i, q, r, format!("{n} fault points where every call including the final flush returned Ok but the bytes on the medium do not reopen to the state those calls describe (first: {l})"));
+                }
+                let (n, l) = field("panics=");
+                if n > 0 {
+                    fail(&mut fails, i, q, r, format!("{n} fault points where an injected I/O failure caused a panic (first: {l})"));
+                }
+            }
+        }
         "C16" => {
             for (i, (q, r)) in reqs.iter().zip(reps.iter()).enumerate() {
                 checked += 1;
@@ -75,6 +111,28 @@ pub fn run(prop: &str, req: &str, rep: &str, outfile: &str) {
         _ => {
             eprintln!("no oracle for {prop}");
             std::process::exit(2);
+        }
+    }
+    // properties whose checks also run package sessions: the history oracle's failures for them
+    if ["C04", "C07", "C11"].contains(&prop) {
+        let mut w = crate::walk::Walk::new();
+        for (i, (q, r)) in reqs.iter().zip(reps.iter()).enumerate() {
+            let first = q.split(' ').next().unwrap_or("");
+            if ["new", "load", "create_table", "drop_table", "insert", "update", "delete", "select", "stream_write",
+                "stream_read", "stream_remove", "has_stream", "streams", "snapshot", "reopen", "flush", "raw",
+                "sum_set", "sum_clear", "set_db_cp", "remove_sig"].contains(&first)
+            {
+                w.step(i, q, r);
+            }
+        }
+        if prop != "C04" {
+            checked += w.checked;
+            nontrivial.extend(w.nontrivial);
+            for t in w.out {
+                if t.tags.iter().any(|x| *x == prop) {
+                    fails.push(t.f);
+                }
+            }
         }
     }
     let mut f = fs::File::create(outfile).unwrap();
